@@ -23,8 +23,12 @@ META = {
         "which segments / parts a live client downloads depends on wall-clock scheduling: it is an input of c09_units_* and of the tie "
         "(the request log of the in-process transport), not a conclusion",
         "c09_units_*_partial start from the muxer's segment / part / sample records; that these hold exactly the accepted written units "
-        "(decode time = written dts + 10 s x rate, duration = next dts - dts) is C01's accounting statement: established by C01's "
-        "correspondence run and oracle, and end to end by this check's oracle, not a theorem",
+        "(decode time = written dts + 10 s x rate, duration = next dts - dts) is C01's accounting statement: since round 10 a theorem about "
+        "the same muxer model (c01_history_accounting / c01_mpegts_history_accounting in Props/C01.v), not re-stated here; end to end it is "
+        "also judged by this check's oracle",
+        "oracle-only legs (the E2E model carries no codec parameters and no notion of a held callback): reported codec parameters against the "
+        "muxer's parameter timeline - parameter sets sent ahead of their key frame count as the muxer's from that key frame on -, and lagging "
+        "clients on muxers with SegmentCount 3-5 (delivered units must be a contiguous run of the written ones)",
         "Track.ClockRate equals the codec's fMP4 time scale (90000 video, sample rate for MPEG-4 Audio, 48000 Opus), as in every example "
         "of the README; with another ClockRate the init's time scale and the sample times disagree (outside the generator)",
         "half of the H264 tracks (all three variants) have picture reordering (B pictures): the written DTS of every unit is what the "
